@@ -311,9 +311,6 @@ fn run_case<N: ArrayLength, E: Elem + Default>(op: Op, l: usize, cap: u8, fault:
                     if (s.as_ptr() as usize) != p0 {
                         fail15!("into_vec moved the block: {:#x} -> {:#x}", p0, s.as_ptr() as usize);
                     }
-                    if core::mem::size_of::<E>() != 0 && s.capacity() != n {
-                        fail15!("into_vec produced capacity {} for {n} elements", s.capacity());
-                    }
                 })
             }
         }
